@@ -194,7 +194,7 @@ def gamut_case(draw):
     X = np.asarray(draw(gens.array((k, m), 0.0, 10.0, styles=("raw", "sparse")))).reshape(k, m)
     X = X + np.eye(m)[np.arange(k) % m] * 0.5            # no all-zero rows, full-dimensional chromaticities
     sup = np.asarray(draw(gens.array((3, m), 0.0, 10.0, styles=("raw",)))).reshape(3, m) + 0.1
-    return dict(X=X.tolist(), extra=sup.tolist(), lam=draw(gens.log_uniform(1e-3, 1e3)), rowlam=draw(gens.array((k,), 0.1, 10.0, styles=("raw",))),
+    return dict(X=X.tolist(), extra=sup.tolist(), lam=draw(gens.log_uniform(1e-11, 1e6)), rowlam=draw(gens.array((k,), 0.1, 10.0, styles=("raw",))),
                 metric=draw(st.sampled_from(["width", "volume"])), seed=draw(gens.seed_value()), at_l1=draw(st.booleans()), l1_t=draw(st.floats(0.2, 0.8)),
                 zero_rows=draw(st.sampled_from(["none", "none", "both", "reference"])))
 
